@@ -1,1 +1,2 @@
-"""C05"""
+"""C05 -- proof part from the contracts tagged C05; bounded comparison with the oracle on cut grammars."""
+from bounded.bC05 import run as bounded  # noqa: F401
